@@ -42,6 +42,7 @@ func c09Funcs() []*ast.Node {
 		ast.Func("bump", []string{"x"}, ast.Block(ast.ExprS(ast.Set(ast.Id("x"), ast.Bin("+", ast.Id("x"), ast.Num("1")))), ast.Return(ast.Id("x")))),
 		ast.Func("pushv", []string{"a", "v"}, ast.Block(ast.ExprS(ast.Method(ast.Id("a"), "push", ast.Id("v"))))),
 		ast.Func("getm", []string{"o", "k"}, ast.Block(ast.Return(ast.Idx(ast.Id("o"), ast.Id("k"))))),
+		ast.Func("locals", []string{"la", "li", "lt", "lu"}, ast.Block(ast.ExprS(ast.Set(ast.Id("li"), ast.Num("5"))), ast.ExprS(ast.Set(ast.Id("lt"), ast.Bin("+", ast.Id("lt"), ast.Str("t")))), ast.ExprS(ast.Post("++", ast.Id("lu"))), ast.Return(ast.Arr(ast.Id("la"), ast.Id("li"), ast.Id("lt"), ast.Id("lu"))))),
 		ast.Func("three", []string{"p1", "p2", "p3"}, ast.Block(ast.Return(ast.Arr(ast.Id("p1"), ast.Id("p2"), ast.Id("p3"))))),
 	}
 }
@@ -121,7 +122,7 @@ func (g *c09Gen) chain(base *ast.Node, cur ref.V, exists bool, depth int) *ast.N
 			n := len(cur.A.E)
 			cls := g.n(0, 11, "idxclass")
 			var idx int
-			frac := false
+			frac, negfrac := false, false
 			switch {
 			case cls <= 3 && n > 0:
 				idx = g.n(0, n-1, "inrange")
@@ -141,12 +142,19 @@ func (g *c09Gen) chain(base *ast.Node, cur ref.V, exists bool, depth int) *ast.N
 			case cls == 10 && n > 0:
 				idx = g.n(0, n-1, "fracbase")
 				frac = true
+				if g.n(0, 2, "negfrac") == 0 {
+					// a negative fraction: -0.5 is element 0, -1.5 the last one (truncation, then counting from the end)
+					idx = -idx
+					negfrac = true
+				}
 				g.labels["index-fractional"] = true
 			default:
 				idx = 0
 			}
 			var ie *ast.Node
-			if idx < 0 {
+			if negfrac {
+				ie = ast.Un("-", ast.Num(fmt.Sprintf("%d.5", -idx)))
+			} else if idx < 0 {
 				ie = ast.Un("-", ast.Num(fmt.Sprint(-idx)))
 			} else if frac {
 				ie = ast.Num(fmt.Sprintf("%d.5", idx))
@@ -473,6 +481,8 @@ func (g *c09Gen) action() bool {
 				// an earlier element (argument) names a place that a later element assigns to:
 				// the earlier one holds the value the place had when it was evaluated
 				stmts = append(stmts, ast.ExprS(ast.Set(ast.Id("ev"), ast.Num("1"))), ast.ExprS(ast.Set(ast.Mem(ast.Id("eo"), "c"), ast.Str("s"))),
+					// (parameters that get no argument are variables of their own, null at first)
+					ast.Print(ast.Str("LOC"), ast.Call(ast.Id("locals"), ast.Id("ev")), ast.Call(ast.Id("locals"))),
 					ast.Print(ast.Str("LIT3"), ast.Arr(ast.Id("ev"), ast.Post("++", ast.Id("ev")), ast.Id("ev"), ast.Asg("+=", ast.Id("ev"), ast.Num("5")), ast.Id("ev"))),
 					ast.Print(ast.Str("LIT4"), ast.Arr(ast.Mem(ast.Id("eo"), "c"), ast.Set(ast.Mem(ast.Id("eo"), "c"), ast.Num("9")), ast.Mem(ast.Id("eo"), "c")),
 						ast.Call(ast.Id("getm"), ast.Arr(ast.Id("ev"), ast.Set(ast.Id("ev"), ast.Str("t"))), ast.Num("0")), ast.Call(ast.Id("three"), ast.Id("ev"), ast.Pre("--", ast.Id("ev")), ast.Id("ev"))))
